@@ -103,6 +103,30 @@ func c12One(r *Run, src string, host interface{}, hostName string, budget time.D
 	}
 }
 
+// c12Api: correspondence of the API level (Compile + Callable over raw environments) with Model/Api.v
+func c12Api(r *Run, src string) {
+	vals := stdValues()
+	var obs Sx
+	pan, _ := protect(func() {
+		cl, err := yae.NewExpr().Compile(src, typeEnvOf(stdVars))
+		if err != nil {
+			obs = A("err")
+			return
+		}
+		v, err := cl(valEnvOf(vals))
+		if err != nil {
+			obs = A("err")
+			return
+		}
+		obs = L(A("ok"), ValSx(v))
+	})
+	if pan {
+		obs = A("escaped")
+	}
+	h := historyFor(false)
+	r.Case(LS([]Sx{A("apieval"), h.Sx(), tenvSx(stdVars), venvSx(stdVars, vals), oraclesSx(src, vals), Runes(src)}), obs)
+}
+
 func trunc(s string, n int) string {
 	if len(s) > n {
 		return s[:n] + "..."
@@ -119,6 +143,7 @@ func runC12(r *Run) {
 		`'2020-01-02 03:04:05' - 'x'`, `x.y.z`, `s.len().abs()`, `(x)(1)`, `x(1)`, `[[[[[[[[1]]]]]]]]`}
 	for _, c := range corpus {
 		c12One(r, c, good, "map", budget)
+		c12Api(r, c)
 		r.Sample(c)
 	}
 	for i, h := range hosts {
@@ -178,5 +203,6 @@ func runC12(r *Run) {
 		src := b.String()
 		r.Nontrivial(src)
 		c12One(r, src, good, "map", budget)
+		c12Api(r, src)
 	}
 }
